@@ -5,6 +5,7 @@ package contextualizers
 import (
 	"time"
 
+	"github.com/dadrus/heimdall/internal/heimdall"
 	"github.com/dadrus/heimdall/internal/rules/endpoint"
 	"github.com/dadrus/heimdall/internal/rules/mechanisms/subject"
 	"github.com/dadrus/heimdall/internal/verifapi"
@@ -33,10 +34,11 @@ func VerifC11ContextualizerKeyDeterministic() {
 	sub := &subject.Subject{ID: verifapi.NondetStringN("sub.id", 2), Attributes: map[string]any{"role": verifapi.NondetStringN("sub.role", 1)}}
 	values := map[string]string{"tenant": verifapi.NondetStringN("values.tenant", 2), "policy": verifapi.NondetStringN("values.policy", 2)}
 	payload := verifapi.NondetStringN("payload", 2)
-	first := h.calculateCacheKey(sub, values, payload)
+	ctx := &vC11Ctx{req: &heimdall.Request{Method: "GET", RequestFunctions: vC11KeyRequest{a: "1", b: "2", c: "3"}}}
+	first := h.calculateCacheKey(ctx, sub, values, payload)
 	for i := 1; i < vC11Reps(); i++ {
 		verifapi.Cover("recomputed")
-		verifapi.Assert("C11/contextualizer/key-independent-of-map-iteration-order", h.calculateCacheKey(sub, values, payload) == first)
+		verifapi.Assert("C11/contextualizer/key-independent-of-map-iteration-order", h.calculateCacheKey(ctx, sub, values, payload) == first)
 	}
 }
 
@@ -49,10 +51,13 @@ func VerifC11ContextualizerKeyNoAliasing() {
 	}
 	s1, v1, p1 := mk("a")
 	s2, v2, p2 := mk("b")
-	k1 := h.calculateCacheKey(s1, v1, p1)
-	k2 := h.calculateCacheKey(s2, v2, p2)
+	// the forwarded request values are equal here; VerifC11ContextualizerKeyForwardedValues varies them
+	r1 := vC11KeyRequest{a: "1", b: "2", c: "3"}
+	r2 := r1
+	k1 := h.calculateCacheKey(&vC11Ctx{req: &heimdall.Request{Method: "GET", RequestFunctions: r1}}, s1, v1, p1)
+	k2 := h.calculateCacheKey(&vC11Ctx{req: &heimdall.Request{Method: "GET", RequestFunctions: r2}}, s2, v2, p2)
 	same := s1.ID == s2.ID && s1.Attributes["role"] == s2.Attributes["role"] && p1 == p2 &&
-		v1["tenant"] == v2["tenant"] && v1["policy"] == v2["policy"]
+		v1["tenant"] == v2["tenant"] && v1["policy"] == v2["policy"] && r1 == r2
 	if same {
 		verifapi.Cover("equal-requests")
 		verifapi.Assert("C11/contextualizer/equal-requests-share-the-key", k1 == k2)
@@ -61,3 +66,47 @@ func VerifC11ContextualizerKeyNoAliasing() {
 		verifapi.Assert("C11/contextualizer/different-requests-never-share-a-key", k1 != k2)
 	}
 }
+
+// VerifC11ContextualizerKeyForwardedValues: two requests that differ at most in the request headers and
+// the cookie forwarded to the endpoint (values of any length, also shifted across their boundaries)
+// share a key only if all forwarded values are equal.
+func VerifC11ContextualizerKeyForwardedValues() {
+	h := vC11Contextualizer()
+	sub := &subject.Subject{ID: "alice", Attributes: map[string]any{"role": "user"}}
+	values := map[string]string{"tenant": "t"}
+	mk := func(n string) vC11KeyRequest {
+		return vC11KeyRequest{a: verifapi.NondetString(n+".header.X-A", 2), b: verifapi.NondetString(n+".header.X-B", 2), c: verifapi.NondetString(n+".cookie.c", 1)}
+	}
+	r1, r2 := mk("a"), mk("b")
+	k1 := h.calculateCacheKey(&vC11Ctx{req: &heimdall.Request{Method: "GET", RequestFunctions: r1}}, sub, values, "p")
+	k2 := h.calculateCacheKey(&vC11Ctx{req: &heimdall.Request{Method: "GET", RequestFunctions: r2}}, sub, values, "p")
+	if r1 == r2 {
+		verifapi.Cover("equal-requests")
+		verifapi.Assert("C11/contextualizer/equal-forwarded-values-share-the-key", k1 == k2)
+	} else {
+		verifapi.Cover("different-requests")
+		verifapi.Assert("C11/contextualizer/different-forwarded-values-never-share-a-key", k1 != k2)
+	}
+}
+
+// vC11KeyRequest: the request functions the cache key reads (forwarded headers X-A, X-B and cookie c)
+type vC11KeyRequest struct{ a, b, c string }
+
+func (r vC11KeyRequest) Header(name string) string {
+	switch name {
+	case "X-A":
+		return r.a
+	case "X-B":
+		return r.b
+	}
+	return ""
+}
+
+func (r vC11KeyRequest) Cookie(name string) string {
+	if name == "c" {
+		return r.c
+	}
+	return ""
+}
+func (r vC11KeyRequest) Headers() map[string]string { return map[string]string{"X-A": r.a, "X-B": r.b} }
+func (r vC11KeyRequest) Body() any                  { return nil }
